@@ -7,9 +7,11 @@ mod c02;
 mod c03;
 mod c05;
 mod c06;
+mod c14;
 mod c18;
 mod c20;
 mod c20_tree;
+mod c04;
 
 fn main() {
     let a: Vec<String> = std::env::args().collect();
@@ -22,8 +24,10 @@ fn main() {
         "C03" => c03::run(tier, seed, dir),
         "C05" => c05::run(tier, seed, dir),
         "C06" => c06::run(tier, seed, dir),
+        "C14" => c14::run(tier, seed, dir),
         "C18" => c18::run(tier, seed, dir),
         "C20" => c20::run(tier, seed, dir),
+        "C04" => c04::run(tier, seed, dir),
         _ => { eprintln!("unknown property {}", prop); std::process::exit(2); }
     }
 }
